@@ -3,7 +3,7 @@ CONSTANTS
   Conns = {1}
   MaxReq = 2
   QCaps = {1}
-  Kinds = {"single", "rlong", "rshort"}
+  Kinds = {"rlong", "rshort"}
   MaxCredit = 2
   MaxTick = 4
   NP = 1
